@@ -196,12 +196,17 @@ def run(ctx: Ctx) -> None:
             ctx.corr_compared += 1
             if a.strip() != b.strip():
                 ctx.mismatch("option routes: implementation and model differ", {"request": ln, "impl": a[-300:], "model": b[-300:]})
+        # tie of the modelled block sub-parser (mini_provenance is a theorem about exactly this model)
+        from . import miniblock
+        miniblock.tie(ctx, drv, 2500 if quick else 60000)
     finally:
         drv.close()
     ctx.partial += [
-        "provenance (a token kind appears only if one of its producing rules is enabled) and the conservative-extension clause "
-        "need per-rule models (which kinds a rule pushes; the table rule declines without a pipe): decided by the oracle; the "
-        "dispatch part — a disabled rule is in no chain — is a theorem",
+        "provenance (a token kind appears only if one of its producing rules is enabled) is PROVED for the modelled sub-parser "
+        "(Props/C10b.lean mini_provenance, mini_no_hr, mini_no_code, mini_zero: code/fence/hr/heading/paragraph under all 16 "
+        "subsets; model tied by the `miniblock` differential runs); for the other rules and for the conservative-extension "
+        "clause (the table rule declines without a pipe) it needs per-rule models and is decided by the oracle; the dispatch "
+        "part — a disabled rule is in no chain — is a theorem",
     ]
 
 
